@@ -338,6 +338,11 @@ func c15Organism(g *GenomeSpec, fit float64, generation int) (fails []c15Fail) {
 // c15ModelOrders: fast-solver models whose connection list is in every order (the order decides the
 // order of summation, i.e. the last bit of the outputs): three weighted links into a linear output.
 func c15ModelOrders() (fails []c15Fail) {
+	defer func() {
+		if r := recover(); r != nil {
+			fails = []c15Fail{{"model/panic", fmt.Sprintf("writing, reading back or running a directly constructed solver panicked: %v", r)}}
+		}
+	}()
 	lin := neatmath.LinearActivation
 	acts := []neatmath.NodeActivationType{lin, lin, lin, lin} // 3 inputs, 1 output
 	w := []float64{0.1, 0.2, 0.3}
